@@ -406,13 +406,40 @@ def run_driver(binp, mode, inputs, timeout=1200, extra_env=None, workdir=None):
             shutil.rmtree(wd, ignore_errors=True)
 
 
+def run_driver_resilient(binp, mode, inputs, **kw):
+    """like run_driver, but a driver process that dies (fatal runtime error such as a stack overflow,
+    which recover() cannot catch) costs only the case it was working on: that case gets the output
+    {"_fatal": <log tail>} and the remaining cases are run in a new process."""
+    outs = []
+    todo = list(inputs)
+    logs = []
+    guard = 0
+    while todo and guard < 50:
+        guard += 1
+        ok, got, lg = run_driver(binp, mode, todo, **kw)
+        outs.extend(got)
+        if ok and len(got) == len(todo):
+            return True, outs, "\n".join(logs)
+        if len(got) >= len(todo):
+            return ok, outs, lg
+        # the case after the last answered one killed the process
+        tail = lg[-1500:]
+        m = re.search(r"(fatal error: [^\n]*|panic: [^\n]*|signal: [^\n]*)", lg)
+        outs.append({"_fatal": (m.group(1) if m else "driver process died") , "_log": tail})
+        logs.append(tail)
+        todo = todo[len(got) + 1:]
+    return True, outs, "\n".join(logs)
+
+
 def run_driver_parallel(binp, mode, inputs, nshards=8, **kw):
+    resilient = kw.pop("resilient", False)
+    runner = run_driver_resilient if resilient else run_driver
     if len(inputs) < 2 * nshards:
-        return run_driver(binp, mode, inputs, **kw)
+        return runner(binp, mode, inputs, **kw)
     size = (len(inputs) + nshards - 1) // nshards
     chunks = [inputs[i:i + size] for i in range(0, len(inputs), size)]
     with ThreadPoolExecutor(max_workers=len(chunks)) as ex:
-        rs = list(ex.map(lambda c: run_driver(binp, mode, c, **kw), chunks))
+        rs = list(ex.map(lambda c: runner(binp, mode, c, **kw), chunks))
     ok = all(r[0] for r in rs)
     outs = [o for r in rs for o in r[1]]
     return ok, outs, "\n".join(r[2] for r in rs if not r[0])
